@@ -16,10 +16,11 @@ LEVEL_TEXT = ('Lean 4 theorems about the executable blur model at ℂ/ℝ whose 
               'extent/pixelscale·oversample enters (unit invariance); pixel and jitter kernels are Hermitian on every shape and smear on odd axes, hence the '
               'filtered image is real and the output equals the exact circular convolution wherever that is non-negative (total kept) — pixel, jitter: all '
               'shapes; smear: odd×odd, with a proved Nyquist-line bound on even axes; the convolution is the spatial circular convolution with ifft2(K). The driver runs '
-              'these very definitions at doubles against the real functions.')
-LEVEL_NOTE = ('Partial: for smear on even-sized axes the unpaired Nyquist row/column breaks Hermitian symmetry; the deviation of the un-normalised '
-              'output is bounded by that row/column (theorem), the renormalised one only by the oracle; pixelate and smear(angle=None) are covered '
-              'by the oracle only. Trusted: np.fft.fft2/ifft2 are the plain DFT pair with origin at index 0, np.fft.fftfreq follows its '
+              'these very definitions at doubles against the real functions; the composition abs∘ifft2∘(·kernel)∘fft2, the renormalisation expression, the '
+              'angle=None branch and pixelate\'s call wiring are regenerated from the sources as well.')
+LEVEL_NOTE = ('Partial: for smear on even-sized axes the unpaired Nyquist row/column breaks Hermitian symmetry; the deviation of the output (before and after '
+              'renormalisation) is bounded by that row/column (theorems); pixelate is modelled up to its call wiring and shape only (the spline '
+              'interpolation of util.rescale is not modelled). Trusted: np.fft.fft2/ifft2 are the plain DFT pair with origin at index 0, np.fft.fftfreq follows its '
               'documented index map, np.sinc/np.exp/np.abs/np.meshgrid as named; rounding not modelled.')
 TECHNIQUE = 'Lean 4 proof (Finset sums, roots-of-unity orthogonality, periodic reindexing, sinc/exp) over an executable model defined from translator-regenerated kernels + differential correspondence'
 GEN = ['BlurWiring']
@@ -31,11 +32,12 @@ RULE = ('cases: non-negative images with rows, cols drawn independently from 1..
         'physical units (outside what the test-suite samples) A ≈5 % sample (search tier: a leading block of 220) comes from an extremes stream: pixel scales 1e-12 … 1e-8 and 1e3 … 1e9 with multi-pixel extents, int16/int32/uint8/uint16/uint32/int64 frames at the limits of their dtype (totals beyond 2³¹), image amplitudes 1e-100 … 1e9, extents 0 / 5e-324 / 1e-300 / 25–60 px, frames of 257–1024 samples along one axis (search only); all tolerances are relative to Σ img.')
 TRUSTED = ['np.fft.fft2 / ifft2 are the un-normalised DFT and its inverse with origin at index 0; np.fft.fftfreq(n) = [0,1,…,⌈n/2⌉-1,-⌊n/2⌋,…,-1]/n; '
            'np.sinc(x) = sin(πx)/(πx); np.meshgrid(x, y) puts x along columns (all modelled in Model/Blur.lean, observed through the correspondence)']
-UNPROVEN = ['smear on even-sized axes: the deviation from |c_H| (c_H the real convolution with the Hermitian part of the kernel) is bounded by the '
-            'Nyquist row/column contribution (smear_even_axis_deviation) for the un-normalised output; how the renormalisation factor moves that '
-            'bound is not stated (the oracle allows the Nyquist contribution scaled by Σimg/Σout)',
-            'pixelate (= rescale(pixel(img, os), 1/os, order 3, nearest, unitary), shape ceil(n/os), total kept) and smear(angle=None) '
-            '(one uniform(0, 2π) draw of the global generator, reproducible under a seed) are evaluated by the oracle only']
+UNPROVEN = ['pixelate: the call wiring (pixel, then rescale by 1/oversample, order 3, nearest, unitary) and the output shape are regenerated and proved '
+            '(pixelate_wiring); the spline interpolation of util.rescale and hence the values / preserved total are evaluated by the oracle only',
+            'smear(angle=None): the branch is regenerated and modelled (smearNone, compared with the implementation under a seeded global generator; '
+            'smear_none_is_smear_at_drawn_angle); that exactly one uniform variate of the global generator is consumed is oracle only',
+            'smear on even-sized axes: the deviation from the Hermitian-part convolution is bounded by the Nyquist row/column for the un-normalised and '
+            'the renormalised output (smear_even_axis_deviation, smear_renormalised_deviation); no closed form of the output there']
 ASSUMPTIONS = ['images are non-negative with positive total (an all-zero image makes jitter/smear return 0/0)', 'shapes at least 1x1',
                'pixelscale ≠ 0']
 
@@ -239,6 +241,11 @@ def requests(c, io):
          'pixelscale': fbits(float(c['pixelscale'])), 'oversample': fbits(float(c['oversample']))}
     if c['kind'] != 'pixel': r['extent'] = fbits(c['extent'])
     if c['kind'] == 'smear': r['angle'] = fbits(c['angle'])
+    if 'random_angle_seed' in c:
+        # the model of the angle=None branch, fed with the uniform [0, 1) variate the seeded global generator yields first
+        u = float(np.random.RandomState(c['random_angle_seed']).random_sample())
+        r2 = {k: v for k, v in r.items() if k != 'angle'}; r2.update({'kind': 'smear_none', 'u': fbits(u)})
+        return [r, r2]
     return [r]
 
 def _arr(d): return np.array(d['v'], dtype=float).reshape(d['shape'])
@@ -251,7 +258,14 @@ def compare(c, io, mo):
     if got.shape != want.shape: return f'shape impl {got.shape} model {want.shape}'
     tol = (3e-6 if c.get('layout') == 'float32' else TOL) * max(float(np.sum(np.abs(_image(c)))), 1e-300)      # float32 frames: single-precision sums
     d = float(np.max(np.abs(got - want)))
-    return None if d <= tol else f'max |impl - model| = {d:.3e} > {tol:.1e}'
+    if not d <= tol: return f'max |impl - model| = {d:.3e} > {tol:.1e}'
+    if len(mo) > 1:
+        if not mo[1].get('ok'): return f"model refused smear(angle=None): {mo[1].get('err')}"
+        if 'exc' in io['rand1']: return f"smear(angle=None) raised {io['rand1']['exc']}; the model answered"
+        w2 = np.array([bitsf(x) for x in mo[1]['out']['v']]).reshape(mo[1]['out']['shape'])
+        d = float(np.max(np.abs(_arr(io['rand1']) - w2)))
+        if not d <= tol: return f'smear(angle=None): max |impl - model| = {d:.3e} > {tol:.1e}'
+    return None
 
 
 # ------------------------------------------------------------------------------------------ oracle (real code only)
